@@ -361,24 +361,24 @@ class SG:
         elif name == "BranchSum":
             ps = [self.val(), self.val(), self.val()]
         elif name == "BranchValue":
-            ps = [v(), self.pick([0, 1, 3, 4, 5, 6, 7, 8, 9, 10, 2]), self.val()]
+            ps = [v(), self.pick([0, 1, 3, 4, 5, 6, 7, 8, 9, 10]), self.val()]  # == is spelled Branch (F-C02-2)
         else:
             ps = [v(), self.i(0, 10), v()]
         return [name, ps, "T"]
 
-    def case_op(self, menu, dmode):
+    def case_op(self, menu, dmode, scn=False):
         if menu:
             if self.b():
                 return ["CaseMenu", [self.string()], "T"]
             return ["CaseMenu2", [self.val()], "T"]
-        k = self.i(0, 3)
+        k = self.i(0, 2)
         if k == 0 or dmode:
             return ["Case", [self.i(0, 3) if dmode else self.val()], "T"]
         if k == 1:
-            return ["CaseValue", [self.i(0, 10), self.val()], "T"]
-        if k == 2:
-            return ["CaseVariable", [self.i(0, 10), self.var()], "T"]
-        return ["CaseScenario", [self.i(0, 10), self.val()], "T"]
+            # ExplorerScript can only say `case <op> V`: CaseScenario under SwitchScenario, CaseValue elsewhere
+            # (the other combinations are known finding F-C02-2 and are not generated)
+            return ["CaseScenario" if scn else "CaseValue", [self.i(0, 10), self.val()], "T"]
+        return ["CaseVariable", [self.i(0, 10), self.var()], "T"]
 
     def switch_head(self):
         name = self.pick(list(T.SWITCH_CASE_MAP))
@@ -408,7 +408,7 @@ class SG:
                 ops.append(h)
                 menu = T.SWITCH_CASE_MAP[h[0]] is T.MENU_CASES
                 for _ in range(self.i(0, 4)):
-                    ops.append(self.case_op(menu, h[0] == "SwitchDungeonMode"))
+                    ops.append(self.case_op(menu, h[0] == "SwitchDungeonMode", h[0] == "SwitchScenario"))
             elif k == 14:
                 ops.append([self.pick(T.MSG_SWITCHES), [self.var()], None])
                 for _ in range(self.i(0, 3)):
@@ -617,4 +617,141 @@ def well_formed(case) -> tuple[bool, str]:
                     return False, "text case after DefaultText"
             if name in T.JUMP_OPS and op[2] is None:
                 return False, "jump without target"
+    # no cycle of Jump ops only - anywhere, also in code that is not reachable from a routine start
+    rs = case["routines"]
+    for r_i, r in enumerate(rs):
+        for i, op in enumerate(r["ops"]):
+            if op[0] == "Jump":
+                seen = set()
+                cur = (r_i, i)
+                while True:
+                    o = rs[cur[0]]["ops"][cur[1]]
+                    if o[0] != "Jump" or o[2] is None or (cur[1] > 0 and rs[cur[0]]["ops"][cur[1] - 1][0] in T.OPS_CTX):
+                        break
+                    if cur in seen:
+                        return False, "cycle of Jump ops only"
+                    seen.add(cur)
+                    cur = (o[2][0], o[2][1])
     return True, ""
+
+
+def locally_reachable(case, r_i) -> set[int]:
+    """Indices of the ops of routine r_i that can be reached from its first op without leaving the routine."""
+    ops = case["routines"][r_i]["ops"]
+    seen: set[int] = set()
+    stack = [0] if ops else []
+    while stack:
+        i = stack.pop()
+        if i in seen or i >= len(ops):
+            continue
+        seen.add(i)
+        name, _, tgt = ops[i]
+        in_ctx = i > 0 and ops[i - 1][0] in T.OPS_CTX
+        if tgt is not None and tgt[0] == r_i and not in_ctx:
+            stack.append(tgt[1])
+        if in_ctx or not (name == "Jump" or name in T.STOP_OPS):
+            stack.append(i + 1)
+        elif name == "Hold" and i + 1 < len(ops) and ops[i + 1][0] in T.STOP_OPS:
+            pass
+    return seen
+
+
+def foreign_targets_not_locally_reachable(case) -> bool:
+    cache = {}
+    for r_i, r in enumerate(case["routines"]):
+        reach_src = cache.setdefault(r_i, locally_reachable(case, r_i))
+        for oi, op in enumerate(r["ops"]):
+            if op[2] is not None and op[2][0] != r_i:
+                tr = op[2][0]
+                reach = cache.setdefault(tr, locally_reachable(case, tr))
+                if op[2][1] not in reach:
+                    return True
+    return False
+
+
+def inexpressible_case_ops(case) -> bool:
+    """CaseScenario outside SwitchScenario / CaseValue under SwitchScenario (known finding F-C02-2)."""
+    for r in case["routines"]:
+        ops = r["ops"]
+        for i, op in enumerate(ops):
+            if op[0] in ("CaseScenario", "CaseValue"):
+                j = i - 1
+                while j >= 0 and ops[j][0] in T.OPS_CASE:
+                    j -= 1
+                head = ops[j][0] if j >= 0 else None
+                if (op[0] == "CaseScenario") != (head == "SwitchScenario"):
+                    return True
+            if op[0] == "BranchValue" and len(op[1]) == 3 and op[1][1] == 2:
+                return True  # `X == V` is the spelling of Branch, BranchValue with == has none
+    return False
+
+
+def case_jumps_backward_or_into_chain(case) -> bool:
+    """Known finding F-C02-8: a case op whose target lies at or before the end of its own case chain."""
+    for r_i, r in enumerate(case["routines"]):
+        ops = r["ops"]
+        for i, op in enumerate(ops):
+            if op[0] in T.OPS_CASE and op[2] is not None and op[2][0] == r_i:
+                j = i
+                while j + 1 < len(ops) and ops[j + 1][0] in T.OPS_CASE:
+                    j += 1
+                if op[2][1] <= j:
+                    return True
+    return False
+
+
+def call_target_only_reachable_by_call(case) -> bool:
+    """Known finding F-C02-7: the writers never follow the taken edge of a call, so code that is reached only
+    that way is not written. Mirrors the decompiler's own reachability: with calls present flow is taken to
+    continue past Return/End/Hold, but not past Jump."""
+    for r_i, r in enumerate(case["routines"]):
+        ops = r["ops"]
+        calls = [(i, op) for i, op in enumerate(ops) if op[0] == "Call" and op[2] is not None and op[2][0] == r_i]
+        if not calls:
+            continue
+        seen: set[int] = set()
+        stack = [0]
+        while stack:
+            i = stack.pop()
+            if i in seen or i >= len(ops):
+                continue
+            seen.add(i)
+            name, _, tgt = ops[i]
+            if tgt is not None and tgt[0] == r_i and name != "Call":
+                stack.append(tgt[1])
+            if name != "Jump" and name != "JumpCommon":
+                stack.append(i + 1)
+        for i, op in calls:
+            if i in seen and op[2][1] not in seen:
+                return True
+    return False
+
+
+def _succ(ops, r_i, i):
+    name, _, tgt = ops[i]
+    out = []
+    in_ctx = i > 0 and ops[i - 1][0] in T.OPS_CTX
+    if tgt is not None and tgt[0] == r_i and not in_ctx:
+        out.append(tgt[1])
+    if (in_ctx or not (name == "Jump" or name in T.STOP_OPS)) and i + 1 < len(ops):
+        out.append(i + 1)
+    return out
+
+
+def degenerate_branch_in_loop(case) -> bool:
+    """Known finding F-C02-9: a conditional branch whose target is the op it falls through to anyway, lying on a
+    cycle (the loop builder mishandles the two parallel edges)."""
+    for r_i, r in enumerate(case["routines"]):
+        ops = r["ops"]
+        for i, op in enumerate(ops):
+            if op[0] in T.OPS_BRANCH and op[2] == [r_i, i + 1]:
+                seen, stack = set(), [i + 1]
+                while stack:
+                    k = stack.pop()
+                    if k in seen or k >= len(ops):
+                        continue
+                    seen.add(k)
+                    stack.extend(_succ(ops, r_i, k))
+                if i in seen:
+                    return True
+    return False
